@@ -435,6 +435,7 @@ class KlongInterpreter():
                 a = KGFn(a, fa, arity) if has_none(fa) else KGCall(a, fa, arity)
             else:
                 a = KGFn(a, args=None, arity=arity)
+            a.literal = True
             ii, aa = peek_adverb(t, i)
             if aa:
                 i,a = self._apply_adverbs(t, ii, a, aa, arity=1)
@@ -494,6 +495,7 @@ class KlongInterpreter():
                     aa = KGFn(aa, fa, arity=arity) if has_none(fa) else KGCall(aa, fa, arity=arity)
                 else:
                     aa = KGFn(aa, args=None, arity=arity)
+                aa.literal = True
             elif isinstance(aa,KGSym) and (cmatch(t, i, '(') or cmatch2(t,i,':','(')):
                 i,fa = self._read_fn_args(t,i)
                 aa = KGFn(aa, fa, arity=len(fa)) if has_none(fa) else KGCall(aa, fa, arity=len(fa))
